@@ -85,3 +85,9 @@ claim("C08",
   "ValidateResponse must accept exactly when the model does: the entry for the status is chosen by exact code, then class, then default; an undeclared status passes unless IncludeResponseStatus; a missing required header, a header or body violating its schema read as a response (writeOnly forbidden and not required, readOnly allowed, ExcludeWriteOnlyValidations honoured), an undeclared content type or an undecodable body reject; ExcludeResponseBody removes only the body part; and input.Body must still yield the original bytes.",
   "Trusted: the model (props/c08), internal/refschema in response mode, internal/styleser for header text.",
   "DESIGN.md#c08")
+
+claim("C09",
+  "property-based testing against a reference matcher: template families, servers and requests (filled templates and neighbours) for both routers; families of up to 2 (3 thorough) templates are enumerated completely, larger families and fresh values are sampled with rapid; oracle = an independent anchored-regex matcher giving the set of (template, binding) pairs that match the request under the server's base path",
+  "Every returned route must name a declared template, carry the request's method and the very operation object the document declares, and reproduce the request path when its (non-empty) parameters are substituted after the base path; a matching literal template that declares the method must win; when nothing matches the error must be a *routers.RouteError; every declared request must be routed except in the counted 'ambiguous' class.",
+  "Trusted: the reference matcher (tplRegexp/refMatches), the request-form precondition (relative servers: server-side request; absolute servers: absolute URL). Two behaviours of the legacy router are open findings (empty binding, ignored slashes). Servers with port/scheme variables are not generated.",
+  "DESIGN.md#c09")
